@@ -215,53 +215,32 @@ func runC12Trace(c *core.Ctx) error {
 			cur[i] = docs[i]
 			cur[i].Trailing = trailing
 		}
-		for attempt := 0; attempt < 12 && len(cur) > 0; attempt++ {
-			var lines [][]byte
-			var docOfLine []int
-			for i, d := range cur {
-				ls := jdTraceLines(d)
-				for range ls {
-					docOfLine = append(docOfLine, i)
-				}
-				lines = append(lines, ls...)
+		var lines [][]byte
+		var docOfLine []int
+		for i, d := range cur {
+			ls := jdTraceLines(d)
+			for range ls {
+				docOfLine = append(docOfLine, i)
 			}
-			bad, res, err := tlc.ValidateTrace("JsonDocTrace", cfg, lines, nil)
-			if res != nil {
-				c.AddTLC(cfg, res)
-				res.Cleanup()
-			}
-			if err != nil {
-				return err
-			}
-			if bad == 0 {
-				validated += len(cur)
-				break
-			}
-			if bad > len(docOfLine) {
-				return fmt.Errorf("trace rejected at line %d of %d", bad, len(docOfLine))
-			}
-			di := docOfLine[bad-1]
-			d := cur[di]
-			// confirm in isolation
-			one := jdTraceLines(d)
-			bad1, res1, err := tlc.ValidateTrace("JsonDocTrace", cfg, one, nil)
-			if res1 != nil {
-				res1.Cleanup()
-			}
-			if err != nil {
-				return err
-			}
-			if bad1 == 0 {
-				return fmt.Errorf("trace of %q rejected in batch but accepted alone", d.Input)
-			}
-			mode := "plain"
-			if trailing {
-				mode = "trailing"
-			}
+			lines = append(lines, ls...)
+		}
+		bad, res, err := tlc.ValidateTrace("JsonDocTrace", cfg, lines, nil)
+		if res != nil {
+			c.AddTLC(cfg, res)
+			res.Cleanup()
+		}
+		if err != nil {
+			return err
+		}
+		validated += len(cur) - len(bad)
+		mode := "plain"
+		if trailing {
+			mode = "trailing"
+		}
+		for _, ln := range bad {
+			d := cur[docOfLine[ln-1]]
 			c.Report(d, []core.Finding{{Class: "jdoc-trace:" + mode + ":" + jdNumClass(d.Input),
-				What: fmt.Sprintf("JsonDocTrace rejects what formats/json reported for %q (%s) at its line %d: %s", d.Input, d.Src, bad1, one[bad1-1])}})
-			validated += di
-			cur = cur[di+1:]
+				What: fmt.Sprintf("JsonDocTrace rejects what formats/json reported for %q (%s): %s", d.Input, d.Src, lines[ln-1])}})
 		}
 	}
 	c.AddInt("traces_validated_against_impl", int64(validated))
@@ -286,8 +265,8 @@ func jdTraceReplay(raw json.RawMessage) ([]core.Finding, error) {
 	if err != nil {
 		return nil, err
 	}
-	if bad != 0 {
-		return []core.Finding{{Class: "jdoc-trace", What: fmt.Sprintf("trace of %q rejected at line %d: %s", d.Input, bad, one[bad-1])}}, nil
+	if len(bad) != 0 {
+		return []core.Finding{{Class: "jdoc-trace", What: fmt.Sprintf("trace of %q rejected at line %d: %s", d.Input, bad[0], one[bad[0]-1])}}, nil
 	}
 	return nil, nil
 }
